@@ -124,6 +124,7 @@ type PathSum struct {
 	cx        *Ctx
 	nid       int
 	closures  map[string]*psClosure
+	funcs     map[string]*ssa.Function
 	fresh     map[string][]string // fresh node term -> [key, value, expiresAt, refreshableAt, weight]
 	maxDepth  int
 	loopBound int
@@ -134,6 +135,7 @@ type PathSum struct {
 	capped    bool
 	noInline  map[*ssa.Function]bool
 	inlineLoops map[*ssa.Function]bool
+	asEvents    map[*ssa.Function]string // extra per-run event functions (summarised callees)
 	roles     *psRoles
 	maxSeen   int
 }
@@ -148,7 +150,7 @@ type psRoles struct {
 }
 
 func newPathSum(cx *Ctx) *PathSum {
-	ps := &PathSum{cx: cx, closures: map[string]*psClosure{}, fresh: map[string][]string{}, maxDepth: 9, loopBound: 1, pathCap: 30000, noInline: map[*ssa.Function]bool{}, inlineLoops: map[*ssa.Function]bool{}}
+	ps := &PathSum{cx: cx, funcs: map[string]*ssa.Function{}, closures: map[string]*psClosure{}, fresh: map[string][]string{}, maxDepth: 9, loopBound: 1, pathCap: 30000, noInline: map[*ssa.Function]bool{}, inlineLoops: map[*ssa.Function]bool{}, asEvents: map[*ssa.Function]string{}}
 	if cx.Tier == "thorough" {
 		ps.maxDepth = 12
 		ps.loopBound = 2
@@ -248,7 +250,9 @@ func (ps *PathSum) val(f *psFrame, v ssa.Value) string {
 		}
 		return "const(" + x.Value.ExactString() + ")"
 	case *ssa.Function:
-		return "func:" + funcName(x)
+		t := "func:" + funcName(x)
+		ps.funcs[t] = x
+		return t
 	case *ssa.Global:
 		return "&global:" + x.Name()
 	case *ssa.Builtin:
@@ -276,6 +280,12 @@ func (ps *PathSum) load(s *psState, addr string, f *psFrame, t types.Type) strin
 			return v
 		}
 		loc := addr[1:]
+		// field of a struct copied from elsewhere
+		if i := strings.LastIndex(loc, "."); i > 0 {
+			if src, ok := s.cells["&structof:"+loc[:i]]; ok {
+				return ps.load(s, "&"+src+loc[i:], f, t)
+			}
+		}
 		// a dereferenced pointer parameter is non-nil on this path
 		if strings.HasPrefix(loc, "param:") {
 			if i := strings.Index(loc, "."); i > 0 {
@@ -292,6 +302,19 @@ func (ps *PathSum) load(s *psState, addr string, f *psFrame, t types.Type) strin
 				case "withExpiration", "withRefresh", "withEviction", "withMaintenance", "withTime", "withStats", "isWeighted", "hasDefaultExecutor":
 					return "flag:" + fld
 				}
+			}
+		}
+		// a struct loaded as a whole is a view of its memory: field reads go back to the cells
+		if _, isStruct := t.Underlying().(*types.Struct); isStruct {
+			hasFields := false
+			for k := range s.cells {
+				if strings.HasPrefix(k, addr+".") {
+					hasFields = true
+					break
+				}
+			}
+			if hasFields || strings.Contains(loc, "[") || strings.HasPrefix(loc, "param:") {
+				return "@" + loc
 			}
 		}
 		// zero-initialised locals
@@ -327,7 +350,7 @@ func splitNeg(t string) (string, bool) {
 }
 
 func relevantAtom(a string) bool {
-	for _, p := range []string{"Expired(", "Alive(", "Dead(", "Fresh(", "PtrEq(", "flag:", "IsNotFound(", "delcall(", "IsNil(", "Eq(", "recovered#", "ok:"} {
+	for _, p := range []string{"Expired(", "Alive(", "Dead(", "Fresh(", "PtrEq(", "flag:", "IsNotFound(", "delcall(", "IsNil(", "Eq(", "recovered#", "ok:", "res:StartCall#", "ErrorsAs("} {
 		if strings.HasPrefix(a, p) {
 			if p == "IsNil(" {
 				inner := a[6 : len(a)-1]
@@ -337,6 +360,9 @@ func relevantAtom(a string) bool {
 			}
 			if p == "Eq(" {
 				// comparisons against constants of tracked scalars (compute op, drain status is not tracked)
+				if strings.Contains(a, "prev") || strings.Contains(a, "sfgot") {
+					return true // identity tests of in-flight records
+				}
 				return strings.Contains(a, "const(") && !strings.Contains(a, "drainStatus") && !strings.Contains(a, "len(")
 			}
 			return true
@@ -379,6 +405,15 @@ func consistent(p map[string]bool) bool {
 		}
 		if strings.HasPrefix(a, "Alive(") && !v && wmOK && !wm {
 			return false
+		}
+		if strings.HasPrefix(a, "ErrorsAs(") && v {
+			x := a[len("ErrorsAs(") : len(a)-1]
+			if n, ok := p["IsNil("+x+")"]; ok && n {
+				return false
+			}
+			if n, ok := p["IsNotFound("+x+")"]; ok && n {
+				return false
+			}
 		}
 		if strings.HasPrefix(a, "Fresh(") && !v {
 			if wr, ok := p["flag:withRefresh"]; ok && !wr {
@@ -539,6 +574,16 @@ func (ps *PathSum) exec(s *psState, f *psFrame) []*psOutcome {
 			addr, v := ps.val(f, x.Addr), ps.val(f, x.Val)
 			if strings.HasPrefix(addr, "&") {
 				s.cells[addr] = v
+				if strings.HasPrefix(v, "@") {
+					// struct copy: remember where the bytes came from (fields never written resolve to the source)
+					s.cells["&structof:"+addr[1:]] = v[1:]
+					src := "&" + v[1:] + "."
+					for k, cv := range s.cells {
+						if strings.HasPrefix(k, src) {
+							s.cells[addr+"."+k[len(src):]] = cv
+						}
+					}
+				}
 				if strings.Contains(addr, ".") && !strings.Contains(addr, "complit") && !strings.Contains(addr, "varargs") {
 					ps.emit(s, f, x.Pos(), "FieldStore", addr[1:], v)
 				}
@@ -574,6 +619,7 @@ func (ps *PathSum) exec(s *psState, f *psFrame) []*psOutcome {
 		case *ssa.Field:
 			base := ps.val(f, x.X)
 			name := fieldNameOf(x.X.Type(), x.Field)
+			base = strings.TrimPrefix(base, "@")
 			if v, ok := s.cells["&"+base+"."+name]; ok {
 				f.vals[x] = v
 			} else {
@@ -652,12 +698,21 @@ func (ps *PathSum) exec(s *psState, f *psFrame) []*psOutcome {
 			f.vals[x] = "range(" + ps.val(f, x.X) + ")"
 		case *ssa.Next:
 			t := ps.sym("next")
-			s.cells["&"+t+".0"] = "ok:" + t
+			okTerm := "ok:" + t
+			it := ps.val(f, x.Iter)
+			if strings.HasPrefix(it, "range(") {
+				m := it[6 : len(it)-1]
+				if m == "nil" || (strings.HasPrefix(m, "map") && s.cells["&len:"+m] == "") {
+					okTerm = "false" // ranging over a nil / still empty map
+				}
+			}
+			s.cells["&"+t+".0"] = okTerm
 			s.cells["&"+t+".1"] = t + ".k"
 			s.cells["&"+t+".2"] = t + ".v"
 			f.vals[x] = t
 		case *ssa.MapUpdate:
 			ps.emit(s, f, x.Pos(), "MapUpdate", ps.val(f, x.Map), ps.val(f, x.Key), ps.val(f, x.Value))
+			s.cells["&len:"+ps.val(f, x.Map)] = "pos"
 		case *ssa.Send:
 			ps.emit(s, f, x.Pos(), "Send", ps.val(f, x.Chan), ps.val(f, x.X))
 		case *ssa.Select:
@@ -725,7 +780,11 @@ func fieldNameOf(t types.Type, i int) string {
 // enter moves to block b honouring the back-edge bound.
 func (ps *PathSum) enter(f *psFrame, b *ssa.BasicBlock) bool {
 	f.visits[b]++
-	if f.visits[b] > ps.loopBound+1 {
+	limit := ps.loopBound + 1
+	if isLoopHeader(b) {
+		limit++ // the header may be reached once more to evaluate the exit condition
+	}
+	if f.visits[b] > limit {
 		return false
 	}
 	f.prev, f.block, f.idx = f.block, b, 0
@@ -746,7 +805,7 @@ func (ps *PathSum) binop(f *psFrame, x *ssa.BinOp) string {
 			switch {
 			case o == "nil":
 				t = "true"
-			case strings.HasPrefix(o, "fresh") || strings.HasPrefix(o, "closure:") || strings.HasPrefix(o, "&") || strings.HasPrefix(o, "newcall") || strings.HasPrefix(o, "panicerr") || o == "panicval":
+			case strings.HasPrefix(o, "fresh") || strings.HasPrefix(o, "closure:") || strings.HasPrefix(o, "&") || strings.HasPrefix(o, "newcall") || strings.HasPrefix(o, "panicerr") || o == "panicval" || isMadeTerm(o):
 				t = "false"
 			default:
 				t = "IsNil(" + o + ")"
@@ -781,7 +840,45 @@ func (ps *PathSum) binop(f *psFrame, x *ssa.BinOp) string {
 		}
 		return t
 	}
+	// integer constants fold; len() of nil / known-nonempty maps is decided
+	if ai, ok := constTermInt(a); ok {
+		if bi, ok := constTermInt(b); ok {
+			switch x.Op {
+			case token.ADD:
+				return fmt.Sprintf("const(%d)", ai+bi)
+			case token.SUB:
+				return fmt.Sprintf("const(%d)", ai-bi)
+			case token.LSS:
+				return fmt.Sprint(ai < bi)
+			case token.LEQ:
+				return fmt.Sprint(ai <= bi)
+			case token.GTR:
+				return fmt.Sprint(ai > bi)
+			case token.GEQ:
+				return fmt.Sprint(ai >= bi)
+			}
+		}
+	}
+	if strings.HasPrefix(a, "lenpos(") && b == "const(0)" {
+		switch x.Op {
+		case token.GTR:
+			return "true"
+		case token.LEQ:
+			return "false"
+		}
+	}
 	return "(" + a + x.Op.String() + b + ")"
+}
+
+func constTermInt(t string) (int64, bool) {
+	if !strings.HasPrefix(t, "const(") || !strings.HasSuffix(t, ")") {
+		return 0, false
+	}
+	var n int64
+	if _, err := fmt.Sscanf(t[6:len(t)-1], "%d", &n); err != nil {
+		return 0, false
+	}
+	return n, true
 }
 
 func isConstTerm(t string) bool {
@@ -1023,4 +1120,30 @@ func (ps *PathSum) continueWith(f *psFrame, call ssa.Value, couts []*psOutcome) 
 		res = append(res, ps.exec(co.S, f2)...)
 	}
 	return ps.dedupe(res)
+}
+
+var loopHeaderCache = map[*ssa.BasicBlock]bool{}
+
+func isLoopHeader(b *ssa.BasicBlock) bool {
+	if v, ok := loopHeaderCache[b]; ok {
+		return v
+	}
+	h := false
+	for _, p := range b.Preds {
+		if b.Dominates(p) {
+			h = true
+		}
+	}
+	loopHeaderCache[b] = h
+	return h
+}
+
+// isMadeTerm: results of make(...) on this path (map12, slice3, chan4(cap=..)) are non-nil.
+func isMadeTerm(t string) bool {
+	for _, p := range []string{"map", "slice", "chan"} {
+		if strings.HasPrefix(t, p) && len(t) > len(p) && t[len(p)] >= '0' && t[len(p)] <= '9' {
+			return true
+		}
+	}
+	return false
 }
